@@ -1,27 +1,36 @@
-"""C08 -- table row selection follows the documented selector semantics, in table order."""
+"""C08 -- table row selection follows the documented selector semantics, in table order.
+
+The selector `Table._get_row_indices` is read as a set of (conditions, returned term) pairs after normalisation
+(helpers inlined, locals dissolved); every rule is a statement about those pairs.
+"""
 from __future__ import annotations
 
 import ast
 
 from .. import astutil as A
+from .. import sym as S
 from ..core import AnalysisError, Collector
-from .common import FnCtx, fnctx, has_guard, is_method_call, is_self_call
+from .common import SCtx, sctx
 from . import c07
+from .c07 import DATA, INDEX, tctx
 
 PROP = "C08"
-FLOORS = {"C08.R1": 1, "C08.R2": 4, "C08.R3": 2, "C08.R4": 3, "C08.R5": 4, "C08.R6": 7, "C08.R7": 3}
+FLOORS = {"C08.R1": 1, "C08.R2": 4, "C08.R3": 2, "C08.R4": 3, "C08.R5": 4, "C08.R6": 7, "C08.R7": 2}
 META = {
-    "explanation": "Path-sensitive nullness over the whole package (a name proved None by the branch condition is never an operand of "
-                   "an ordering comparison or arithmetic); bound roles in the value-range branch (start only as `col >= start`, stop "
-                   "only as `col <= stop`, bounds tested with `is None`, never by truthiness: 0 is a legitimate bound); no iteration "
-                   "over an unordered collection reaches the returned index array unsorted; absent names are misses on both sibling "
-                   "dictionaries; regex selection is a case-insensitive full match by default; rows[...], rows.indices[...] and "
-                   "rows.mask[...] all resolve through Table._get_row_indices (tuples left to right through _make_view); name spans "
-                   "are inclusive.",
+    "explanation": "Path-sensitive nullness (a value proved None by the branch condition is never an operand of an ordering "
+                   "comparison or arithmetic: package-wide on names, and on symbolic terms in the selector); bound roles in the "
+                   "value-range branch (start only as `col >= start`, stop only as `col <= stop`, bounds tested with `is None`, never "
+                   "by truthiness: 0 is a legitimate bound); positions gathered in an order other than a scan of the index column are "
+                   "sorted before they are returned; absent names are misses on both sibling dictionaries and the name cache is read "
+                   "only through the resolver; regex selection is a case-insensitive full match by default; rows[...], "
+                   "rows.indices[...] and rows.mask[...] all resolve through Table._get_row_indices (tuples, on every path, left to "
+                   "right through _make_view); name spans are inclusive.",
     "decides": "structural necessary conditions of the selector semantics and of table order",
     "not_decided": "equality with a reference selector on all tables",
     "assumptions": ["numpy comparison/where semantics"],
 }
+
+ORDERING = ("<", "<=", ">", ">=")
 
 
 def _none_operands(col, rule="C08.R1"):
@@ -30,7 +39,7 @@ def _none_operands(col, rule="C08.R1"):
     nfun = 0
     hits = 0
 
-    def none_names(test, positive=True):
+    def none_names(test):
         conj = test.values if isinstance(test, ast.BoolOp) and isinstance(test.op, ast.And) else [test]
         out = set()
         for c in conj:
@@ -79,227 +88,306 @@ def _none_operands(col, rule="C08.R1"):
                 if n.orelse:
                     scan(n.orelse, not_none_single(n.test), m, q)
     col.count("functions_scanned_for_None_operands", nfun)
+    # the same on symbolic terms of the selector (through helpers and temporaries)
+    sx = tctx(repo, "_get_row_indices")
+    for r in sx.of_kind("return"):
+        nones = {c[2] for c in sx.conds(r.nid) if c[:1] == ("cmp",) and c[1] == "is" and c[3] == ("const", "None")}
+        for s_ in S.subterms(r.value):
+            if s_[:1] == ("cmp",) and s_[1] in ORDERING:
+                for operand in (s_[2], s_[3]):
+                    if operand in nones:
+                        hits += 1
+                        col.fail(rule, f"Table._get_row_indices#None-operand:{S.show(operand, False)}", sx.loc(r),
+                                 "a value that the branch conditions prove to be None is not used as an operand of an ordering comparison",
+                                 f"`{S.show(s_)}` under {[S.show(c) for c in sx.conds(r.nid) if c[:1] == ('cmp',) and c[1] == 'is']}")
     if hits == 0:
         col.ok(rule, "package#no-definitely-None-operand", "xdeps/", f"no definitely-None operand in {nfun} functions", "")
 
 
+def _selector(col):
+    sx = tctx(col.repo, "_get_row_indices")
+    row = sx.P(0)
+    return sx, row, ("attr", row, "start"), ("attr", row, "stop"), ("attr", row, "step")
+
+
 def _bound_roles(col, rule="C08.R2"):
-    repo = col.repo
-    cx = fnctx(repo, "Table", "_get_row_indices")
-    fn = cx.fn
-    rp = A.params(fn)[1]
-    roles = {}
-    for n in A.walk(fn):
-        if isinstance(n, ast.Assign) and isinstance(n.value, ast.Attribute) and A.dotted(n.value.value) == rp and n.value.attr in ("start", "stop", "step"):
-            roles[A.target_names(n.targets[0])[0]] = n.value.attr
-    inv = {v: k for k, v in roles.items()}
-    if set(inv) != {"start", "stop", "step"}:
-        raise AnalysisError("Table._get_row_indices: slice parts not bound to locals (unrecognised shape)")
-    ia, ib, ic = inv["start"], inv["stop"], inv["step"]
-    # truthiness tests on bounds
+    sx, row, start, stop, step = _selector(col)
+    column = ("sub", DATA, step)
+    rets = sx.of_kind("return")
+    uses = {start: [], stop: []}
+    both = False
+    open_all = False
+    for r in rets:
+        for s_ in S.subterms(r.value):
+            if s_[:1] == ("cmp",) and s_[1] in ORDERING:
+                flip = {"<": ">", "<=": ">=", ">": "<", ">=": "<="}
+                for b in (start, stop):
+                    if s_[3] == b:
+                        uses[b].append((s_[1], s_[2] == column, S.show(s_)))
+                    elif s_[2] == b:
+                        uses[b].append((flip[s_[1]], s_[3] == column, S.show(s_)))
+            if s_[:1] == ("op",) and s_[1] == "&" and S.contains(s_, lambda t: t == start) and S.contains(s_, lambda t: t == stop):
+                both = True
+        cs = sx.conds(r.nid)
+        if r.value in (S.fcall("slice", ("const", "None")), S.fcall("slice", ("const", "None"), ("const", "None"), ("const", "None"))) \
+                and ("cmp", "is", start, ("const", "None")) in cs and ("cmp", "is", stop, ("const", "None")) in cs:
+            open_all = True
+    if not uses[start] and not uses[stop]:
+        raise AnalysisError("Table._get_row_indices: no comparison of a column with the slice bounds found (cannot decide)")
+    # truthiness tests on the bounds anywhere in the selector
     bad = []
-    for n in A.walk(fn):
-        tests = []
-        if isinstance(n, (ast.If, ast.IfExp, ast.While)):
-            tests.append(n.test)
-        for t in list(tests):
-            if isinstance(t, ast.BoolOp):
-                tests += t.values
-        for t in tests:
-            t2 = t.operand if isinstance(t, ast.UnaryOp) and isinstance(t.op, ast.Not) else t
-            if isinstance(t2, ast.Name) and t2.id in (ia, ib):
-                bad.append(A.src(t))
-    col.add(rule, "Table._get_row_indices#bounds-tested-with-is-None", not bad, cx.loc(fn),
-            "range bounds are tested with `is None`, never by truthiness (0 and 0.0 are legitimate bounds)", str(bad))
-    # comparisons of a column with the bounds
-    cmpuses = {ia: [], ib: []}
-    for n in A.walk(fn):
-        if isinstance(n, ast.Compare) and len(n.ops) == 1 and isinstance(n.ops[0], (ast.Lt, ast.LtE, ast.Gt, ast.GtE)):
-            l, r = n.left, n.comparators[0]
-            for nm in (ia, ib):
-                if A.dotted(r) == nm:
-                    cmpuses[nm].append((type(n.ops[0]).__name__, A.src(n)))
-                elif A.dotted(l) == nm:
-                    flip = {"Lt": "Gt", "LtE": "GtE", "Gt": "Lt", "GtE": "LtE"}[type(n.ops[0]).__name__]
-                    cmpuses[nm].append((flip, A.src(n)))
-    col.add(rule, "Table._get_row_indices#start-is-inclusive-lower-bound", bool(cmpuses[ia]) and all(o == "GtE" for o, _ in cmpuses[ia]), cx.loc(fn),
-            "the start of a value range is used only as `col >= start`", str(cmpuses[ia]))
-    col.add(rule, "Table._get_row_indices#stop-is-inclusive-upper-bound", bool(cmpuses[ib]) and all(o == "LtE" for o, _ in cmpuses[ib]), cx.loc(fn),
-            "the stop of a value range is used only as `col <= stop`", str(cmpuses[ib]))
-    # both bounds: conjunction; the column is self._data[step]
-    both = [n for n in A.walk(fn) if isinstance(n, ast.BinOp) and isinstance(n.op, ast.BitAnd)]
-    okb = any(ia in A.names_loaded(b) and ib in A.names_loaded(b) for b in both) or \
-        any(isinstance(n, ast.AugAssign) and isinstance(n.op, ast.BitAnd) for n in A.walk(fn))
-    col.add(rule, "Table._get_row_indices#both-bounds-conjunction", okb, cx.loc(fn), "with both bounds given the two conditions are and-ed", "")
-    colsrc = [n for n in A.walk(fn) if isinstance(n, ast.Assign) and A.src(n.value) == f"self._data[{ic}]"]
-    col.add(rule, "Table._get_row_indices#range-column-is-step", bool(colsrc), cx.loc(fn), "the column compared is the one named by the slice step", "")
-    # each one-sided branch returns the comparison of *its* bound (covered by R1 when swapped); open range selects all
-    rets = [n.value for n in A.walk(fn) if isinstance(n, ast.Return)]
-    col.add(rule, "Table._get_row_indices#open-range-selects-all", any(A.src(r) == "slice(None)" for r in rets), cx.loc(fn),
-            "a range with neither bound selects every row", "")
+    for n in sx.cfg.nodes.values():
+        if n.kind == "test":
+            t = sx.sym.of(n.ast, n.id)
+            for c in S.conjuncts(S.norm_cond(True, t)) + S.conjuncts(S.norm_cond(False, t)):
+                parts = list(c[2]) if c[:1] == ("bool",) else [c]
+                for p in parts:
+                    if p in (start, stop) or (p[:1] == ("uop",) and p[1] == "not" and p[2] in (start, stop)):
+                        bad.append(S.show(p))
+    col.add(rule, "Table._get_row_indices#bounds-tested-with-is-None", not bad, sx.loc(sx.fn),
+            "range bounds are tested with `is None`, never by truthiness (0 and 0.0 are legitimate bounds)", str(sorted(set(bad))))
+    col.add(rule, "Table._get_row_indices#start-is-inclusive-lower-bound", bool(uses[start]) and all(o == ">=" and c for o, c, _ in uses[start]), sx.loc(sx.fn),
+            "the start of a value range is used only as `self._data[step] >= start`", str([u[2] for u in uses[start]]))
+    col.add(rule, "Table._get_row_indices#stop-is-inclusive-upper-bound", bool(uses[stop]) and all(o == "<=" and c for o, c, _ in uses[stop]), sx.loc(sx.fn),
+            "the stop of a value range is used only as `self._data[step] <= stop`", str([u[2] for u in uses[stop]]))
+    col.add(rule, "Table._get_row_indices#both-bounds-conjunction", both, sx.loc(sx.fn), "with both bounds given the two conditions are and-ed", "")
+    col.add(rule, "Table._get_row_indices#open-range-selects-all", open_all, sx.loc(sx.fn), "a range with neither bound selects every row", "")
+    # one-sided ranges use the bound that is present
+    for r in rets:
+        cs = sx.conds(r.nid)
+        for b, other in ((start, stop), (stop, start)):
+            if ("cmp", "is", other, ("const", "None")) in cs and ("cmp", "is not", b, ("const", "None")) in cs:
+                used = [s_ for s_ in S.subterms(r.value) if s_[:1] == ("cmp",) and s_[1] in ORDERING]
+                ok = bool(used) and all(b in (s_[2], s_[3]) for s_ in used)
+                col.add(rule, f"Table._get_row_indices#one-sided:{S.show(b, False)}", ok, sx.loc(r),
+                        "a one-sided range compares the column with the bound that was given", S.show(r.value)[:100])
+
+
+def _positions_lists(t):
+    """acc-list instances inside a returned index-array term"""
+    return [s_ for s_ in S.subterms(t) if s_[:1] == ("acc",) and s_[1] == "list"]
 
 
 def _table_order(col, rule="C08.R3"):
     repo = col.repo
-    cx = fnctx(repo, "Table", "_get_regexp_indices")
-    fn = cx.fn
-    cfg = cx.cfg
-    rets = [n for n in cfg.nodes.values() if n.kind == "stmt" and isinstance(n.ast, ast.Return)]
+    sx = tctx(repo, "_get_regexp_indices")
+    rets = sx.of_kind("return")
+    if not rets:
+        raise AnalysisError("Table._get_regexp_indices: no return")
+    col_scan = ("index", ("sub", DATA, INDEX))
+    ok_sorted, facts, scans, offset_ok = True, [], 0, True
     final = rets[-1]
-    # the list returned by the last return
-    lst = None
-    for n in A.walk(final.ast.value):
-        if isinstance(n, ast.Call) and A.call_name(n) in ("np.array", "numpy.array", "np.asarray") and n.args:
-            lst = n.args[0]
-    if lst is None:
-        raise AnalysisError("Table._get_regexp_indices: returned index array not recognised (cannot decide)")
-    sorted_wrap = isinstance(lst, ast.Call) and A.call_name(lst) == "sorted"
-    lname = A.dotted(lst) if not sorted_wrap else A.dotted(lst.args[0])
-    # set-typed name collections
-    set_names = {A.target_names(n.targets[0])[0] for n in A.walk(fn) if isinstance(n, ast.Assign) and len(A.target_names(n.targets[0])) == 1 and (
-        (isinstance(n.value, ast.Call) and A.call_name(n.value) in ("set", "frozenset")) or isinstance(n.value, (ast.Set, ast.SetComp)))}
-    # sources feeding the list: loops / comprehensions
-    problems = []
-    needs_sort = []
-    for n in A.walk(fn):
-        it = None
-        feeds = False
-        if isinstance(n, ast.For):
-            feeds = any(isinstance(c.func, ast.Attribute) and c.func.attr == "append" and A.dotted(c.func.value) == lname for c in A.calls(n))
-            it = n.iter
-        elif isinstance(n, ast.Assign) and A.target_names(n.targets[0]) == [lname] and isinstance(n.value, ast.ListComp):
-            feeds = True
-            it = n.value.generators[0].iter
-        if not feeds or it is None:
-            continue
-        in_table_order = isinstance(it, ast.Call) and A.call_name(it) == "enumerate" and A.src(it.args[0]) == "self._data[self._index]"
-        if in_table_order:
-            continue
-        if isinstance(it, ast.Name) and it.id in set_names:
-            problems.append(f"iterates the set `{it.id}` (hash-seed dependent order)")
-        needs_sort.append(n)
-    sorts = cx.call_nodes(lambda c: isinstance(c.func, ast.Attribute) and c.func.attr == "sort" and A.dotted(c.func.value) == lname)
-    ok_sorted = True
-    why = ""
-    for n in needs_sort:
-        nid = cfg.node_of(n) if not isinstance(n, ast.For) else cfg.node_of(n)
-        if nid is None:
-            continue
-        if sorted_wrap:
-            continue
-        if not sorts or cfg.path_avoiding(nid, final.id, sorts):
-            ok_sorted = False
-            why = "positions collected per matching name (in order of first appearance of the names, not of the count-th occurrences) reach " \
-                  "the result without being sorted into table order"
-    col.add(rule, "Table._get_regexp_indices#count-branch-in-table-order", ok_sorted and not problems, cx.loc(final.id),
-            "row positions gathered name by name are sorted before they are returned (rows come back in table order, independent of "
-            "the hash seed)", "; ".join(problems + ([why] if why else [])))
-    # the plain branch scans the column in order and appends the scan index
-    scan = [n for n in A.walk(fn) if isinstance(n, ast.For) and isinstance(n.iter, ast.Call) and A.call_name(n.iter) == "enumerate"
-            and A.src(n.iter.args[0]) == "self._data[self._index]"]
-    oks = len(scan) == 1
-    if oks:
-        ii, nn = A.target_names(scan[0].target)
-        app = [c for c in A.calls(scan[0]) if isinstance(c.func, ast.Attribute) and c.func.attr == "append" and A.dotted(c.func.value) == lname]
-        oks = len(app) == 1 and A.dotted(app[0].args[0]) == ii
-    col.add(rule, "Table._get_regexp_indices#scan-in-table-order", oks, cx.loc(fn),
+    for r in rets:
+        for inst in S.instances(r.value, 16):
+            wrapped = S.contains(inst, lambda t: S.is_call_of(t, ("glob", "sorted")) or S.is_call_of(t, ("attr", ("glob", "np"), "sort")))
+            for lst in _positions_lists(inst):
+                unsorted_since = None
+                for c in lst[2]:
+                    if c[0] == "reorder" and c[2] == ("const", repr("sort")):
+                        unsorted_since = None
+                    elif c[0] in ("one", "many"):
+                        if c[2] == col_scan:
+                            scans += 1
+                            # the scan is filtered by the match only
+                            continue
+                        unsorted_since = c
+                if unsorted_since is not None and not wrapped:
+                    ok_sorted = False
+                    facts.append(f"positions {S.show(unsorted_since[2])[:80]} are returned in the order they were gathered")
+    col.add(rule, "Table._get_regexp_indices#count-branch-in-table-order", ok_sorted, sx.loc(final),
+            "row positions gathered name by name (or in any order other than a scan of the index column) are sorted before they are "
+            "returned: rows come back in table order, independent of the hash seed", "; ".join(facts[:2]))
+    col.add(rule, "Table._get_regexp_indices#scan-in-table-order", scans >= 1, sx.loc(sx.fn),
             "without a count the matching rows are collected by one scan of the index column, in order", "")
-    # concatenate & co: unordered column sets are not row order -- cross reference only
-    # offset is applied to the result
-    col.add(rule, "Table._get_regexp_indices#offset-applied", A.src(final.ast.value).endswith("+ offset"), cx.loc(final.id),
-            "the `<<`/`>>` offset shifts every selected position", A.src(final.ast.value))
+    off = ("item", S.mcall(S.SELF, "_split_name_count_offset", sx.P(0)), 2)
+    offset_ok = all(S.match(a, ("op", "+", S.ANY, off)) is not None or S.contains(a, lambda t: t == off) for a in S.alts(final.value))
+    col.add(rule, "Table._get_regexp_indices#offset-applied", offset_ok, sx.loc(final),
+            "the `<<`/`>>` offset shifts every selected position", S.show(final.value)[-60:])
 
 
 def _regex(col, rule="C08.R5"):
     repo = col.repo
-    cx = fnctx(repo, "Table", "_get_regexp_indices")
-    comp = [c for c in A.calls(cx.fn) if A.call_name(c) == "re.compile"]
-    ok = len(comp) == 1 and any(k.arg == "flags" and A.src(k.value) == "self._regex_flags" for k in comp[0].keywords)
-    col.add(rule, "Table._get_regexp_indices#compiled-with-table-flags", ok, cx.loc(cx.fn), "the pattern is compiled with the table's regex flags", "")
-    fm = [c for c in A.calls(cx.fn) if isinstance(c.func, ast.Attribute) and c.func.attr in ("fullmatch", "match", "search", "findall")]
-    col.add(rule, "Table._get_regexp_indices#full-match", len(fm) == 1 and fm[0].func.attr == "fullmatch", cx.loc(cx.fn),
-            "a name is selected only if the whole name matches the pattern", str([f.func.attr for f in fm]))
+    sx = tctx(repo, "_get_regexp_indices")
+    flags = S.sattr("_regex_flags")
+    matchers, bad = [], []
+    for ev in sx.events:
+        tms = [ev.term] if ev.kind == "call" else [x for x in (ev.value,) if x is not None]
+        for n in sx.cfg.nodes.values():
+            pass
+        for tm in tms:
+            for s_ in S.subterms(tm):
+                if S.is_call_of(s_) and s_[1][:1] == ("attr",) and s_[1][2] in ("fullmatch", "match", "search", "findall"):
+                    matchers.append(s_)
+    for n in sx.cfg.nodes.values():
+        if n.kind == "test":
+            for s_ in S.subterms(sx.sym.of(n.ast, n.id)):
+                if S.is_call_of(s_) and s_[1][:1] == ("attr",) and s_[1][2] in ("fullmatch", "match", "search", "findall"):
+                    matchers.append(s_)
+    if not matchers:
+        raise AnalysisError("Table._get_regexp_indices: no regular-expression match found (cannot decide)")
+    full = all(m[1][2] == "fullmatch" for m in matchers)
+    with_flags = True
+    for m in matchers:
+        recv = m[1][1]
+        if S.is_call_of(recv, ("attr", ("glob", "re"), "compile")):
+            with_flags = with_flags and dict(recv[3]).get("flags") == flags or (len(recv[2]) == 2 and recv[2][1] == flags)
+        elif recv == ("glob", "re"):
+            with_flags = with_flags and (dict(m[3]).get("flags") == flags or (len(m[2]) == 3 and m[2][2] == flags))
+        else:
+            with_flags = False
+    col.add(rule, "Table._get_regexp_indices#compiled-with-table-flags", with_flags, sx.loc(sx.fn), "the pattern is compiled with the table's regex flags", "")
+    col.add(rule, "Table._get_regexp_indices#full-match", full, sx.loc(sx.fn),
+            "a name is selected only if the whole name matches the pattern", str(sorted({m[1][2] for m in matchers})))
     init = repo.method("Table", "__init__")
     d = A.param_defaults(init).get("regex_flags")
     col.add(rule, "Table.__init__#case-insensitive-by-default", A.src(d) == "re.IGNORECASE", repo.cls("Table").module.loc(init),
             "the default regex flags are re.IGNORECASE", A.src(d))
+    isx = tctx(repo, "__init__")
+    fl = isx.pnamed("regex_flags") if "regex_flags" in isx.sym.params else None
     stored = False
-    for n in A.walk(init):
-        if isinstance(n, ast.Dict):
-            dd = {A.const(k): v for k, v in zip(n.keys, n.values)}
-            stored = A.dotted(dd.get("_regex_flags")) == "regex_flags"
-    col.add(rule, "Table.__init__#flags-stored", stored, repo.cls("Table").module.loc(init), "the flags given are the flags used", "")
-    # derived tables inherit the flags
+    for ev in isx.events:
+        for tm in ([ev.term] if ev.kind == "call" else [x for x in (ev.value,) if x is not None]):
+            for s_ in S.subterms(tm):
+                if s_[:1] == ("dict",) and dict(s_[1]).get(("const", repr("_regex_flags"))) == fl:
+                    stored = True
+                if s_[:1] == ("acc",) and any(c[0] == "kv" and c[2] == ("const", repr("_regex_flags")) and c[3] == fl for c in s_[2]):
+                    stored = True
+        if ev.kind == "call" and S.match(ev.term, ("call", c07.OBJ_SETATTR, (S.SELF, ("const", repr("_regex_flags")), fl), ())) is not None:
+            stored = True
+    col.add(rule, "Table.__init__#flags-stored", stored and fl is not None, repo.cls("Table").module.loc(init), "the flags given are the flags used", "")
     for meth in ("_select", "_select_rows", "_select_cols"):
-        fn = repo.method("Table", meth)
-        ok = any(any(k.arg == "regex_flags" and A.src(k.value) == "self._regex_flags" for k in c.keywords) for c in A.calls(fn))
-        col.add(rule, f"Table.{meth}#flags-inherited", ok, repo.cls("Table").module.loc(fn), "a derived table keeps the regex flags", "")
+        msx = tctx(repo, meth)
+        ok = False
+        rets = msx.of_kind("return")
+        for r in rets:
+            for a in S.alts(r.value):
+                if S.is_call_of(a) and dict(a[3]).get("regex_flags") == flags:
+                    ok = True
+        col.add(rule, f"Table.{meth}#flags-inherited", ok, msx.loc(msx.fn), "a derived table keeps the regex flags", "")
 
 
 def _routing(col, rule="C08.R6"):
     repo = col.repo
-    t = repo.cls("Table")
-    fn = repo.method("_RowView", "__getitem__")
-    ok = not A.has_fragments(fn, ["self.indices[{P1}]", "self.table._get_row_indices({P1})", "self.table._select_rows({L})", "isinstance({P1}, tuple)"])
-    col.add(rule, "_RowView.__getitem__#single-selector", ok, t.module.loc(fn),
-            "rows[...] resolves through Table._get_row_indices (tuples through rows.indices) and selects with _select_rows", "")
-    fn = repo.method("Indices", "__getitem__")
-    ok = not A.has_fragments(fn, ["self.table.rows._make_view(*{P1})", "get_indices()", "self.table._get_row_indices({P1})",
-                                  "np.arange(len(self.table))[{L}]"])
-    col.add(rule, "Indices.__getitem__#single-selector", ok, t.module.loc(fn),
-            "rows.indices[...] resolves through the same selector; slices are expanded over the table length; tuples through _make_view", "")
-    fn = repo.method("Mask", "__getitem__")
-    ok = not A.has_fragments(fn, ["self.table.rows.indices[{P1}]", "np.zeros(len(self.table), dtype=bool)", "{L}[{L}] = True"])
-    col.add(rule, "Mask.__getitem__#from-indices", ok, t.module.loc(fn), "rows.mask[...] marks exactly the positions rows.indices[...] returns", "")
-    cx = fnctx(repo, "_RowView", "_make_view")
-    fors = [n for n in A.walk(cx.fn) if isinstance(n, ast.For)]
-    ok = len(fors) == 1 and fors[0].iter.id == cx.fn.args.vararg.arg if fors and isinstance(fors[0].iter, ast.Name) and cx.fn.args.vararg else False
+    tab = S.sattr("table")
+    # rows[...]
+    sx = tctx(repo, "__getitem__", "_RowView")
+    rows = sx.P(0)
+    rets = sx.of_kind("return")
+    via = (("sub", S.sattr("indices"), rows), S.mcall(tab, "_get_row_indices", rows), ("sub", ("attr", ("attr", tab, "rows"), "indices"), rows))
+    ok = bool(rets)
+    for r in rets:
+        for a in S.instances(r.value):
+            m = S.match(a, S.mcall(tab, "_select_rows", S.V("i")))
+            ok = ok and m is not None and m["i"] in via
+    col.add(rule, "_RowView.__getitem__#single-selector", ok, sx.loc(sx.fn),
+            "rows[...] resolves through Table._get_row_indices (tuples through rows.indices) and selects with _select_rows",
+            S.show(rets[0].value)[:120] if rets else "")
+    # rows.indices[...]
+    sx = tctx(repo, "__getitem__", "Indices")
+    rows = sx.P(0)
+    is_tuple = S.fcall("isinstance", rows, ("glob", "tuple"))
+    view = ("call", ("attr", ("attr", tab, "rows"), "_make_view"), (("uop", "*", rows),), ())
+    sel = S.mcall(tab, "_get_row_indices", rows)
+    ok, facts = True, []
+    n_tuple = n_single = 0
+    for r in sx.of_kind("return"):
+        cs = sx.conds(r.nid)
+        tuple_branch = any(c == is_tuple or (c[:1] == ("bool",) and is_tuple in c[2]) for c in cs)
+        if tuple_branch:
+            n_tuple += 1
+            if r.value != S.mcall(("attr", view, "_data"), "get_indices"):
+                ok = False
+                facts.append(f"a tuple of selectors returns {S.show(r.value)[:80]}")
+        else:
+            n_single += 1
+            if r.value not in (sel, ("sub", S.fcall(("attr", ("glob", "np"), "arange"), S.fcall("len", tab)), sel)):
+                ok = False
+                facts.append(f"a single selector returns {S.show(r.value)[:80]}")
+    col.add(rule, "Indices.__getitem__#single-selector", ok and n_tuple >= 1 and n_single >= 1, sx.loc(sx.fn),
+            "rows.indices[...] resolves through the same selector; slices are expanded over the table length; tuples, on every path, "
+            "through _make_view (each selector applied to the rows left by the previous one)", "; ".join(facts))
+    # rows.mask[...]
+    sx = tctx(repo, "__getitem__", "Mask")
+    rows = sx.P(0)
+    zeros = S.fcall(("attr", ("glob", "np"), "zeros"), S.fcall("len", tab), dtype=("glob", "bool"))
+    idx = ("sub", ("attr", ("attr", tab, "rows"), "indices"), rows)
+    st = [e for e in sx.of_kind("store") if e.target == ("sub", zeros, idx) and e.value == ("const", "True")]
+    rets = sx.of_kind("return")
+    col.add(rule, "Mask.__getitem__#from-indices", bool(st) and bool(rets) and all(r.value == zeros for r in rets), sx.loc(sx.fn),
+            "rows.mask[...] marks exactly the positions rows.indices[...] returns", "")
+    # _make_view: left to right, each selector on the table produced by the previous one
+    sx = tctx(repo, "_make_view", "_RowView")
+    va = [t for t in sx.sym.params.values() if t[:1] == ("param",) and t[2].startswith("*")]
+    sel_calls = sx.calls_some(("call", ("attr", S.V("t"), "_get_row_indices"), (S.V("r"),), ()))
+    ok = bool(va) and len(sel_calls) == 1
     if ok:
-        ok = not A.has_fragments(cx.fn, ["{L}._get_row_indices({L})", "_View({L}._data, {L}, len({L}))", "{L} = Table("])
-    col.add(rule, "_RowView._make_view#left-to-right", ok, cx.loc(cx.fn),
+        ev, m = sel_calls[0]
+        carried = any(a[:1] == ("rec",) or S.contains(a, lambda t: t[:1] == ("rec",)) for a in S.alts(m["t"])) or len(S.alts(m["t"])) > 1
+        ok = m["r"] == ("elem", va[0]) and sx.sym.loops(ev.nid) == (va[0],) and carried and not sx.conds(ev.nid)
+    views = sx.calls_some(("call", ("glob", "_View"), S.V("a"), S.ANY))
+    ok = ok and len(views) == 1 and len(views[0][1]["a"]) == 3
+    col.add(rule, "_RowView._make_view#left-to-right", ok, sx.loc(sx.fn),
             "a tuple of selectors is applied left to right, each to the table produced by the previous one", "")
-    fn = repo.method("_View", "get_indices")
-    ok = not A.has_fragments(fn, ["self.data.get_indices()[self.index]", "np.arange(self.nrows)[self.index]"])
-    col.add(rule, "_View.get_indices#composition", ok, t.module.loc(fn), "nested views compose their index arrays back to absolute positions", "")
-    fn = repo.method("_View", "__getitem__")
-    col.add(rule, "_View.__getitem__#restricts", not A.has_fragments(fn, ["self.data[{P1}][self.index]"]), t.module.loc(fn), "a view restricts every column by its index", "")
-    cx = fnctx(repo, "Table", "_select_rows")
-    ok = not A.has_fragments(cx.fn, ["self._data[{L}][{P1}]"])
-    col.add(rule, "Table._select_rows#same-index-every-column", ok, cx.loc(cx.fn), "one index array is applied to every column", "")
+    sx = tctx(repo, "get_indices", "_View")
+    want = {("sub", S.mcall(S.sattr("data"), "get_indices"), S.sattr("index")),
+            ("sub", S.fcall(("attr", ("glob", "np"), "arange"), S.sattr("nrows")), S.sattr("index"))}
+    got = {r.value for r in sx.of_kind("return")}
+    col.add(rule, "_View.get_indices#composition", got == want, sx.loc(sx.fn), "nested views compose their index arrays back to absolute positions",
+            str([S.show(g) for g in got]))
+    sx = tctx(repo, "__getitem__", "_View")
+    got = [r.value for r in sx.of_kind("return")]
+    col.add(rule, "_View.__getitem__#restricts", bool(got) and all(g == ("sub", ("sub", S.sattr("data"), sx.P(0)), S.sattr("index")) for g in got), sx.loc(sx.fn),
+            "a view restricts every column by its index", "")
+    sx = tctx(repo, "_select_rows")
+    rows = sx.P(0)
+    names = S.sattr("_col_names")
+    ok = False
+    for r in sx.of_kind("return"):
+        for a in S.alts(r.value):
+            if S.is_call_of(a) and a[2] and a[2][0][:1] == ("acc",):
+                for c in a[2][0][2]:
+                    if c[0] == "kv" and c[2] == ("elem", names) and c[3] == ("sub", ("sub", DATA, ("elem", names)), rows) and not c[1]:
+                        ok = True
+    col.add(rule, "Table._select_rows#same-index-every-column", ok, sx.loc(sx.fn), "one index array is applied to every column", "")
     # dispatch of _get_row_indices
-    cx = fnctx(repo, "Table", "_get_row_indices")
-    rp = A.params(cx.fn)[1]
-    ok = not A.has_fragments(cx.fn, ["return self._get_regexp_indices({P1})", "np.where({P1})[0]", "return [self._get_row_index({P1})]"])
-    col.add(rule, "Table._get_row_indices#dispatch", ok, cx.loc(cx.fn),
-            "strings go to the regex selector, boolean masks to np.where, single names/tuples to the row resolver", "")
-    def bool_test(t):
-        return "dtype" in A.src(t) and "bool" in A.src(t)
-    w = cx.call_nodes(lambda c: A.call_name(c) == "np.where" and A.dotted(c.args[0]) == rp)
-    col.add(rule, "Table._get_row_indices#mask-branch", bool(w) and has_guard(cx.cfg, w[0], "T", bool_test), cx.loc(cx.fn),
-            "np.where(mask) is used exactly for boolean arrays", "")
+    sx, row, start, stop, step = _selector(col)
+    by = {}
+    for r in sx.of_kind("return"):
+        for c in sx.conds(r.nid):
+            if c == S.fcall("isinstance", row, ("glob", "str")):
+                by.setdefault("str", []).append(r.value)
+            if S.contains(c, lambda t: t == ("attr", ("attr", S.fcall(("attr", ("glob", "np"), "array"), row), "dtype"), "kind")) is False and \
+                    c[:1] == ("cmp",) and c[1] == "is" and S.contains(c, lambda t: S.is_call_of(t, ("attr", ("glob", "np"), "dtype"))):
+                by.setdefault("bool", []).append(r.value)
+    ok = by.get("str") == [S.mcall(S.SELF, "_get_regexp_indices", row)] and \
+        bool(by.get("bool")) and all(S.match(v, ("sub", S.fcall(("attr", ("glob", "np"), "where"), S.V("m")), ("const", "0"))) is not None for v in by["bool"])
+    single = [r.value for r in sx.of_kind("return") if r.value == ("list", (S.mcall(S.SELF, "_get_row_index", row),))]
+    col.add(rule, "Table._get_row_indices#dispatch", ok and bool(single), sx.loc(sx.fn),
+            "strings go to the regex selector, boolean masks to np.where, single names/tuples to the row resolver",
+            str({k: [S.show(x)[:50] for x in v] for k, v in by.items()}))
 
 
 def _name_spans(col, rule="C08.R7"):
-    repo = col.repo
-    cx = fnctx(repo, "Table", "_get_row_indices")
-    plus1 = [n for n in A.walk(cx.fn) if isinstance(n, ast.Assign) and isinstance(n.value, ast.BinOp) and isinstance(n.value.op, ast.Add) and A.is_const(n.value.right, 1)]
-    stops = [n for n in plus1 if "stop" in A.src(n) or True]
-    roles = {}
-    for n in A.walk(cx.fn):
-        if isinstance(n, ast.Assign) and isinstance(n.value, ast.Attribute) and n.value.attr in ("start", "stop"):
-            roles[A.target_names(n.targets[0])[0]] = n.value.attr
-    inv = {v: k for k, v in roles.items()}
-    ia, ib = inv.get("start"), inv.get("stop")
-    ok_stop = [n for n in plus1 if A.target_names(n.targets[0]) == [ib] and isinstance(n.value.left, ast.Call) and ib in A.names_loaded(n.value.left)]
-    bad_start = [n for n in plus1 if A.target_names(n.targets[0]) == [ia]]
-    col.add(rule, "Table._get_row_indices#name-span-stop-inclusive", len(ok_stop) >= 1 and not bad_start, cx.loc(cx.fn),
-            "the stop name of a span a:b resolves to its position + 1 (inclusive), the start name to its position", "")
-    idx = [n for n in A.walk(cx.fn) if isinstance(n, ast.Assign) and A.target_names(n.targets[0]) in ([ia], [ib]) and
-           isinstance(n.value, (ast.Call, ast.BinOp)) and "_get_row_index" in A.src(n.value)]
-    col.add(rule, "Table._get_row_indices#name-span-through-row-resolver", len(idx) >= 2, cx.loc(cx.fn),
-            "span ends given as names resolve through _get_row_index (name::count<<offset forms included)", "")
-    rets = [A.src(n.value) for n in A.walk(cx.fn) if isinstance(n, ast.Return)]
-    col.add(rule, "Table._get_row_indices#name-span-slice", f"slice({ia}, {ib})" in rets, cx.loc(cx.fn), "a name span becomes slice(start, stop)", "")
+    sx, row, start, stop, step = _selector(col)
+    spans = []
+    for r in sx.of_kind("return"):
+        m = S.match(r.value, S.fcall("slice", S.V("a"), S.V("b")))
+        if m is not None and any(S.contains(c, lambda t: t == S.fcall("isinstance", start, ("glob", "str"))) for c in sx.conds(r.nid)):
+            spans.append((r, m))
+    if not spans:
+        raise AnalysisError("Table._get_row_indices: name-span branch `slice(start, stop)` not recognised (cannot decide)")
+    col_ = ("sub", DATA, step)
+    for r, m in spans:
+        a_ok = all(a in (start, S.mcall(S.SELF, "_get_row_index", start), S.mcall(S.SELF, "_get_row_where_col", col_, start)) for a in S.instances(m["a"]))
+        b_ok = all(b in (stop, ("op", "+", S.mcall(S.SELF, "_get_row_index", stop), ("const", "1")),
+                         ("op", "+", S.mcall(S.SELF, "_get_row_where_col", col_, stop), ("const", "1"))) for b in S.instances(m["b"]))
+        col.add(rule, "Table._get_row_indices#name-span-stop-inclusive", a_ok and b_ok, sx.loc(r),
+                "the stop name of a span a:b resolves to its position + 1 (inclusive), the start name to its position",
+                f"slice({S.show(m['a'])[:80]}, {S.show(m['b'])[:80]})")
+        through = any(a == S.mcall(S.SELF, "_get_row_index", start) for a in S.instances(m["a"])) and \
+            any(b == ("op", "+", S.mcall(S.SELF, "_get_row_index", stop), ("const", "1")) for b in S.instances(m["b"]))
+        col.add(rule, "Table._get_row_indices#name-span-through-row-resolver", through, sx.loc(r),
+                "span ends given as names resolve through _get_row_index (name::count<<offset forms included)", "")
 
 
 def check(col: Collector):
@@ -308,8 +396,9 @@ def check(col: Collector):
     _table_order(col)
     sub = Collector(col.repo, "C08", col.tier)
     c07._parser(sub, rule="C08.R4")
+    c07._entry_points(sub, rule="C08.R4")
     for o in sub.obs:
-        if "_get_row_cache" in o.construct:
+        if "_get_row_cache" in o.construct or o.construct.endswith("#cache-read-only-through-resolver"):
             col.obs.append(o)
     _regex(col)
     _routing(col)
